@@ -53,6 +53,14 @@ def run_history(ctx, h, nops, model_in, expect):
         # the resources of this history come from *loading* a document without roots (a saved empty model), then filled
         w.res_factory = lambda fmt=('xmi' if h % 2 else 'json'): loaded_empty(fmt)
         ctx.count('history/resources-loaded-from-an-empty-document')
+    elif h % 5 == 2:
+        # resources that address their objects by uuid: the positional fragment of an object is still a way to reach it
+        def with_uuids():
+            r = w.Resource()
+            r.use_uuid = True
+            return r
+        w.res_factory = with_uuids
+        ctx.count('history/resources-with-uuids')
     g = store.Gen(rng, mm, w, focus=[f for f in mm.feats if f.ref and f.cont and f.many], max_objs=12)
     # build phase: a resource, a handful of objects, a root with several children
     pre = ['res'] + [f'new {rng.choice([c[0] for c in mm.classes])}' for _ in range(rng.randint(5, 9))]
@@ -378,10 +386,15 @@ def id_lookup_pass(ctx):
                 r.resource_factory['json'] = lambda uri: JsonResource(uri)
                 r.metamodel_registry[pk.nsURI] = pk
                 return r
-            root = A()
+            # (the root has an id of its own where the type offers a value that is not its default, and is referred to by it)
+            rootkey = {'EString': 'k0', 'EInt': 99, 'ELong': 77, 'EDouble': 9.5}.get(t.name)
+            has_rootkey = rootkey is not None and k % 3 != 2
+            root = A(key=rootkey) if has_rootkey else A()
             objs = [A(key=v) for v in vals]
             root.kids.extend(objs)
             root.ref = rng.choice(objs)
+            if has_rootkey:
+                objs[-1].ref = root
             path = os.path.join(tmp, f'id{k}.{fmt}')
             res = rs().create_resource(URI(path))
             res.append(root)
@@ -389,13 +402,15 @@ def id_lookup_pass(ctx):
                 res.save()
                 lr = rs().get_resource(URI(path))
                 lroot = lr.contents[0]
-            except Exception:
-                ctx.count('id-lookup/setup-raised')
-                continue
+            except Exception as e:
+                ctx.violate({'clause': 'id-resolve', 'format': fmt, 'type': t.name},
+                            f'id-resolve ({fmt}, id attribute of type {t.name}, root with an id: {has_rootkey}): saving the model and '
+                            f'loading it again raised {type(e).__name__}: {e}', {'id_lookup': k, 'format': fmt, 'type': t.name})
+                return
             ctx.count(f'id-lookup/{fmt}/{t.name}')
             ctx.nontriv(('id-lookup', k))
             problem = None
-            for o in lroot.kids:
+            for o in list(lroot.kids) + ([lroot] if has_rootkey else []):
                 text = t.to_string(o.key)
                 ctx.evaluations += 1
                 try:
@@ -413,6 +428,8 @@ def id_lookup_pass(ctx):
                     ok = False
                 if not ok:
                     problem = 'the reference written by id does not reach the loaded object of that id'
+                elif has_rootkey and lroot.kids[-1].ref is not lroot:
+                    problem = 'the reference to the root, written by its id, does not reach the loaded root'
             if problem:
                 ctx.violate({'clause': 'id-resolve', 'format': fmt, 'type': t.name},
                             f'id-resolve ({fmt}, id attribute of type {t.name}): {problem}', {'id_lookup': k, 'format': fmt, 'type': t.name})
